@@ -120,8 +120,11 @@ pub fn replay_case(case: &Value, tally: &mut Tally) {
 //-----------------------------------------------------------------------------
 // Direction 1: library bytes -> TLC.
 
-fn ev(t: &str, bytes: &[u8], content: Value) -> Value {
-    json!({"e": "file", "t": t, "elems": elems_json(bytes), "content": content})
+/// A file event: the bytes the library wrote for `x`, and whether the library loads its own file back into an equal value.
+fn ev<T: Serialize + PartialEq>(t: &str, x: &T, content: Value) -> Value {
+    let bytes = to_bytes(x);
+    let reload = guarded(|| { let mut cur = std::io::Cursor::new(&bytes); match T::load(&mut cur) { Ok(y) => y == *x && cur.position() as usize == bytes.len(), Err(_) => false } }).unwrap_or(false);
+    json!({"e": "file", "t": t, "elems": elems_json(&bytes), "content": content, "reload": reload})
 }
 
 fn ones_json<I: Iterator<Item = usize>>(it: I) -> Value { Value::Array(it.map(|p| json!(p)).collect()) }
@@ -153,19 +156,37 @@ pub fn record_format(seed: u64, thorough: bool, path: &str) -> Value {
         if small {
             let mut raw = RawVector::with_len(len, false);
             for p in bv::positions(runs) { raw.set_bit(p, true); }
-            out.push(ev("raw", &to_bytes(&raw), json!({"len": len, "ones": ones_json(bv::positions(runs))})));
+            out.push(ev("raw", &(raw), json!({"len": len, "ones": ones_json(bv::positions(runs))})));
             let mut b = BitVector::from(raw);
             if rng.chance(1, 2) { b.enable_rank(); } if rng.chance(1, 2) { b.enable_select(); } if rng.chance(1, 3) { b.enable_select_zero(); }
-            out.push(ev("bv", &to_bytes(&b), json!({"len": len, "ones": ones_json(bv::positions(runs)), "sup": [b.supports_rank(), b.supports_select(), b.supports_select_zero()]})));
+            out.push(ev("bv", &(b), json!({"len": len, "ones": ones_json(bv::positions(runs)), "sup": [b.supports_rank(), b.supports_select(), b.supports_select_zero()]})));
             files += 2;
         }
         if ones <= 3000 {
             let sv = bv::sparse_builder(len, runs);
-            out.push(ev("sparse", &to_bytes(&sv), json!({"len": len, "ones": ones_json(bv::positions(runs))})));
+            out.push(ev("sparse", &(sv), json!({"len": len, "ones": ones_json(bv::positions(runs))})));
             files += 1;
         }
         let rv = bv::rl_runs(len, runs);
-        out.push(ev("rl", &to_bytes(&rv), json!({"len": len, "runs": bv::runs_json(runs)})));
+        out.push(ev("rl", &(rv), json!({"len": len, "runs": bv::runs_json(runs)})));
+        files += 1;
+    }
+    // unbalanced bitvectors with every support structure: the numbers of ones- and zeros-superblocks differ
+    for (len, step, all) in [(9000usize, 61usize, true), (9000, 1, false), (4097, 4096, true)] {
+        let mut raw = RawVector::with_len(len, !all);
+        for p in (0..len).step_by(step) { raw.set_bit(p, all); }
+        let ones: Vec<usize> = (0..len).filter(|i| raw.bit(*i)).collect();
+        let mut b = BitVector::from(raw);
+        b.enable_rank(); b.enable_select(); b.enable_select_zero();
+        out.push(ev("bv", &b, json!({"len": len, "ones": ones, "sup": [true, true, true]})));
+        files += 1;
+    }
+    {
+        // a sparse vector whose `high` has more than one superblock of ones and one of zeros
+        let n = 1usize << 20;
+        let runs: Runs = (0..4300usize).map(|i| (i * 243 + (i % 7), 1)).collect();
+        let sv = bv::sparse_builder(n, &runs);
+        out.push(ev("sparse", &sv, json!({"len": n, "ones": ones_json(bv::positions(&runs))})));
         files += 1;
     }
     // integer vectors, byte vectors, strings, options, wavelet matrices
@@ -175,19 +196,19 @@ pub fn record_format(seed: u64, thorough: bool, path: &str) -> Value {
         let items: Vec<u64> = (0..n).map(|_| rng.next() & ((1u64 << w) - 1)).collect();
         let mut v = IntVector::new(w).unwrap();
         for x in items.iter() { v.push(*x); }
-        out.push(ev("int", &to_bytes(&v), json!({"w": w, "items": items})));
+        out.push(ev("int", &(v), json!({"w": w, "items": items})));
         let nb = rng.below(40);
         let bytes: Vec<u8> = (0..nb).map(|_| rng.next() as u8).collect();
-        out.push(ev("bytes", &to_bytes(&bytes), json!({"bytes": bytes})));
+        out.push(ev("bytes", &(bytes), json!({"bytes": bytes})));
         let s: String = (0..rng.below(12)).map(|_| *rng.pick(&['a', 'ñ', '€', 'z'])).collect();
-        out.push(ev("bytes", &to_bytes(&s), json!({"bytes": s.as_bytes()})));
+        out.push(ev("bytes", &(s), json!({"bytes": s.as_bytes()})));
         let opt: Option<Vec<u64>> = if rng.chance(1, 2) { None } else { Some((0..rng.below(5)).map(|_| rng.next() >> 40).collect()) };
-        out.push(ev("opt_vec", &to_bytes(&opt), json!({"present": opt.is_some(), "items": opt.clone().unwrap_or_default()})));
+        out.push(ev("opt_vec", &(opt), json!({"present": opt.is_some(), "items": opt.clone().unwrap_or_default()})));
         let width = rng.range(1, 9);
         let len = rng.below(if thorough { 120 } else { 60 });
         let vals: Vec<u64> = (0..len).map(|_| if rng.chance(1, 4) { 0 } else { rng.below(1 << width) as u64 }).collect();
-        out.push(ev("wm", &to_bytes(&WaveletMatrix::from(vals.clone())), json!({"vals": vals})));
-        out.push(ev("wmcore", &to_bytes(&WMCore::from(vals.clone())), json!({"vals": vals})));
+        out.push(ev("wm", &(WaveletMatrix::from(vals.clone())), json!({"vals": vals})));
+        out.push(ev("wmcore", &(WMCore::from(vals.clone())), json!({"vals": vals})));
         files += 6;
     }
     // vectors that went through shrinking histories: the unused bits of the last element must still be 0
@@ -200,13 +221,13 @@ pub fn record_format(seed: u64, thorough: bool, path: &str) -> Value {
         for _ in 0..rng.range(1, 4) { v.pop(); }
         if rep % 2 == 0 { let keep = v.len() / 2 + 1; v.resize(keep, 0); }
         let items: Vec<u64> = v.iter().collect();
-        out.push(ev("int", &to_bytes(&v), json!({"w": w, "items": items})));
+        out.push(ev("int", &(v), json!({"w": w, "items": items})));
         let mut raw = RawVector::with_len(rng.range(65, 200), true);
         for _ in 0..rng.range(1, 3) { unsafe { raw.pop_int(rng.range(1, 64)); } }
         if rep % 3 == 0 { raw = raw.complement(); raw.push_bit(true); unsafe { raw.pop_int(1); } }
         if rep % 3 == 1 { let l = raw.len(); raw.resize(l - rng.range(1, 60), false); }
         let ones: Vec<usize> = (0..raw.len()).filter(|i| raw.bit(*i)).collect();
-        out.push(ev("raw", &to_bytes(&raw), json!({"len": raw.len(), "ones": ones})));
+        out.push(ev("raw", &(raw), json!({"len": raw.len(), "ones": ones})));
         files += 2;
     }
     // skip_option / absent_option on the optional support structures of a bitvector
